@@ -52,8 +52,15 @@ func (s *synchronizer) sync(_ context.Context, res Response) (Response, bool, er
 
 	s.cycle.counter++
 
-	if !res.Ack {
-		s.cycle.res.Ack = false
+	// A command is acknowledged when any of the nodes acknowledges it, the same way a
+	// single storage iterator acknowledges a command when any of its channels does.
+	// Requiring every node to acknowledge would end a traversal as soon as the node
+	// with the least data runs dry.
+	if res.Ack {
+		s.cycle.res.Ack = true
+	}
+	if res.Error != nil && s.cycle.res.Error == nil {
+		s.cycle.res.Error = res.Error
 	}
 
 	fulfilled := s.cycle.counter == s.nodeCount
@@ -61,5 +68,5 @@ func (s *synchronizer) sync(_ context.Context, res Response) (Response, bool, er
 		s.cycle.counter = 0
 	}
 
-	return res, fulfilled, nil
+	return s.cycle.res, fulfilled, nil
 }
